@@ -409,6 +409,74 @@ func (e *Engine) VerifyStructural(name string) {
 			return
 		}
 		e.Obls = append(e.Obls, &Obligation{Name: oname, Kind: "structural", Func: oname, Goal: True, Clause: fmt.Sprintf("%s (%d call sites, %d constants, %d non-constant arguments; %d functions scanned)", sc.Text, sites, len(emitted), dynamic, n), Where: where})
+	case "no_stores_into":
+		// no_stores_into TYPE in PKG@prefix1|prefix2
+		// No function of PKG (with one of the prefixes) stores through a pointer to TYPE (a field
+		// write such as value.Exponent = 0, or *value = ...): arguments of that type are only read.
+		if len(f) < 4 || f[2] != "in" {
+			fail("no_stores_into TYPE in PKG@prefix|prefix")
+			return
+		}
+		tname := f[1]
+		var prefixes []string
+		pk := f[3]
+		if k := strings.Index(pk, "@"); k >= 0 {
+			prefixes = strings.Split(pk[k+1:], "|")
+			pk = pk[:k]
+		}
+		pkg := resolvePkg(pk)
+		isT := func(t types.Type) bool {
+			p, ok := t.Underlying().(*types.Pointer)
+			if !ok {
+				return false
+			}
+			return types.TypeString(p.Elem(), func(p *types.Package) string { return p.Path() }) == tname
+		}
+		var bad []string
+		n := 0
+		for _, fn := range fns {
+			if pkgOf(fn) != pkg || len(fn.Blocks) == 0 {
+				continue
+			}
+			sk := shortKey(funcKey(fn))
+			if len(prefixes) > 0 {
+				okp := false
+				for _, pf := range prefixes {
+					if strings.HasPrefix(sk, pf) {
+						okp = true
+					}
+				}
+				if !okp {
+					continue
+				}
+			}
+			n++
+			for _, b := range fn.Blocks {
+				for _, in := range b.Instrs {
+					st, ok := in.(*ssa.Store)
+					if !ok {
+						continue
+					}
+					hit := isT(st.Addr.Type())
+					if fa, ok := st.Addr.(*ssa.FieldAddr); ok && isT(fa.X.Type()) {
+						hit = true
+					}
+					if hit {
+						bad = append(bad, sk)
+					}
+				}
+			}
+		}
+		if n == 0 {
+			fail("no functions matched in " + pkg)
+			return
+		}
+		if len(bad) > 0 {
+			sort.Strings(bad)
+			fail("stores through a pointer to " + tname + " in: " + strings.Join(bad, "; "))
+			return
+		}
+		e.Obls = append(e.Obls, &Obligation{Name: oname, Kind: "structural", Func: oname, Goal: True, Clause: fmt.Sprintf("%s (%d functions scanned)", sc.Text, n), Where: where})
 	default:
 		fail("unknown structural check " + f[0])
 	}
